@@ -11,6 +11,8 @@ import (
 	"pgregory.net/rapid"
 
 	"github.com/krotik/ecal/parser"
+
+	"verif/internal/ev"
 )
 
 func TestTmpDump(t *testing.T) {
@@ -64,4 +66,75 @@ func TestTmpTiming(t *testing.T) {
 		}
 		fmt.Printf("TIMING draw=%v run=%v progs=%d bytes=%d G=%d reps=%d prov=%s pretty=%v events=%d\n", t1.Sub(t0).Round(time.Millisecond), t2.Sub(t1).Round(time.Millisecond), len(c.Progs), sz, c.Goroutines, c.Reps, c.Provider, c.Pretty, len(c.Events))
 	})
+}
+
+func TestTmpEvalOutputs(t *testing.T) {
+	if os.Getenv("C13_DUMP") == "" {
+		t.Skip()
+	}
+	files := map[string]string{}
+	for i, b := range libBodies {
+		files[fmt.Sprintf("hlib/h%d", i)] = fmt.Sprintf(b, 3, 4)
+	}
+	for li := range libBodies {
+		fl := map[string]string{"hlib/h0": files[fmt.Sprintf("hlib/h%d", li)], "hlib/h1": files[fmt.Sprintf("hlib/h%d", li)]}
+		erp := newProvider(fl, nil, 0)
+		for _, b := range hostEvalBodies {
+			p := fmt.Sprintf(b, 3)
+			fmt.Printf("HOSTEVAL lib%d %q\n   => %s\n", li, p, evalOnce(p, erp, 1))
+		}
+		closeProvider(erp, false)
+	}
+	n := 0
+	rapid.Check(t, func(rt *rapid.T) {
+		mainText, fl, events, _, _ := drawEval(rt)
+		c := Case{Main: mainText, Files: fl, Events: events}
+		env, err := newEvalEnv(c, 1)
+		if err != nil {
+			fmt.Printf("SETUP ERROR %v\n%s\n", err, mainText)
+			return
+		}
+		lines := env.post(events, 1, nil)
+		env.close()
+		bad := false
+		for _, l := range lines {
+			if strings.Contains(l, "ERROR") || strings.Contains(l, "rror") || strings.Contains(l, "SKIPPED") {
+				bad = true
+			}
+		}
+		if bad || n < 2 {
+			n++
+			fmt.Printf("EVALCASE bad=%v\n%s\nFILES %v\n%s\n", bad, mainText, fl, strings.Join(lines, "\n"))
+		}
+	})
+}
+
+func TestTmpSeqDump(t *testing.T) {
+	out := os.Getenv("C13_SEQDUMP")
+	if out == "" {
+		t.Skip()
+	}
+	f, _ := os.Create(out)
+	defer f.Close()
+	erp := newProvider(nil, nil, 0)
+	defer closeProvider(erp, false)
+	n := 0
+	rapid.Check(t, func(rt *rapid.T) {
+		g := &pgen{rt: rt}
+		p := g.program(g.pick("force", []string{"", "if", "for", "map", "import", "interp", "sink", "func"}))
+		if g.n("mutate", 0, 2) == 1 {
+			p = g.mutate(p)
+		}
+		if g.n("guardmap", 0, 3) == 2 {
+			p = "if " + g.mapLit(1) + " == 1 {\n}\nfor " + g.expr(2) + " " + g.block(2) + "\n" + p
+		}
+		n++
+		if os.Getenv("C13_SEQFULL") == fmt.Sprint(n) {
+			fmt.Fprintf(f, "FULL %d\n%s\n----\n%s\n----\n%s\n", n, p, parseOnce(p, nil, true, nil), parseOnce(p, erp, false, nil))
+		}
+		fmt.Fprintf(f, "%d %x\n", n, ev.Hash(p+"\x00"+parseOnce(p, nil, true, nil)+"\x00"+strings.ReplaceAll(parseOnce(p, erp, false, nil), "", "")))
+	})
+	for _, p := range corpus {
+		fmt.Fprintf(f, "corpus %x\n", ev.Hash(p+"\x00"+parseOnce(p, nil, true, nil)))
+	}
 }
